@@ -263,7 +263,7 @@ VTIME_CAP = 3e5
 
 
 def run_tool(scn: Scenario, base: Path, faults=None, on_event=None, trace=False, gate=None, upstream_files=None,
-             hashseed=None, prepare=None, on_request=None, on_write=None, chunk_size=64):
+             hashseed=None, prepare=None, on_request=None, on_write=None, chunk_size=64, on_downloader=None):
     """Runs APTMirror.run() in this process.  faults: {url: {path: {"first": [Resp...], "rest": Resp}}}.
     upstream_files: {url: files} overrides rendering (for history steps).  Returns RunResult."""
     import apt_mirror.apt_mirror as am
@@ -300,6 +300,8 @@ def run_tool(scn: Scenario, base: Path, faults=None, on_event=None, trace=False,
     def for_settings(*, settings):
         d = SimDownloader(settings=settings)
         d.upstream = ups[str(settings.url).rstrip("/")]
+        if on_downloader is not None:
+            on_downloader(d, str(settings.url))
         return d
 
     orig_factory = am.DownloaderFactory.for_settings
